@@ -16,6 +16,29 @@ from rustsrc import Source, AnchorLost, parse_int, match_close
 NAME = 'GenStreamTypes'
 
 
+SHAPES = [('h3/src/connection.rs', 'poll_accept_recv', 'poll_accept_recv'),
+          ('h3/src/connection.rs', 'poll_control', 'inner_poll_control'),
+          ('h3/src/connection.rs', 'process_goaway', 'process_goaway'),
+          ('h3/src/connection.rs', 'poll_grease_stream', 'poll_grease_stream'),
+          ('h3/src/stream.rs', 'into_stream', 'into_stream'),
+          ('h3/src/stream.rs', 'poll_next_varint', 'poll_next_varint'),
+          ('h3/src/stream.rs', 'poll_type', 'poll_type'),
+          ('h3/src/server/connection.rs', 'accept', 'server_accept'),
+          ('h3/src/server/connection.rs', 'shutdown', 'server_shutdown'),
+          ('h3/src/server/connection.rs', 'poll_accept_request_stream_internal', 'server_poll_accept_request'),
+          ('h3/src/server/connection.rs', 'poll_control', 'server_poll_control'),
+          ('h3/src/server/connection.rs', 'poll_next_control', 'server_poll_next_control'),
+          ('h3/src/client/connection.rs', 'poll_close', 'client_poll_close')]
+
+
+def shape_of(body):
+    """whole-body anchor: the statement sequence with string literals blanked and white space removed, as a number"""
+    import hashlib
+    body = re.sub(r'"(?:[^"\\]|\\.)*"', '""', body)
+    body = re.sub(r'\s+', '', body)
+    return int(hashlib.sha256(body.encode()).hexdigest()[:15], 16)
+
+
 def macro_rows(src, name):
     m = re.search(r'(?m)^' + name + r'!\s*\{', src.text)
     if not m:
@@ -151,6 +174,13 @@ def extract(repo):
     if not re.search(r'!\s*StreamId::from\(id\)\.is_request\(\)', body):
         raise AnchorLost('client goaway id check')
 
+    # whole bodies of the functions the model mirrors by hand (loops, guards, `continue`s, statement order)
+    f['shapes'] = []
+    cache = {}
+    for path, fn, name in SHAPES:
+        src = cache.setdefault(path, Source(repo + '/' + path))
+        body, spans['shape_' + name] = src.fn_body(fn)
+        f['shapes'].append((name, shape_of(body)))
     return f, spans
 
 
@@ -213,4 +243,8 @@ def render(f):
     L.append('Definition srv_ignored : list frame_kind := [%s].' % '; '.join(kind[k] for k in f['srv_ignored']))
     for nm, c in zip(('goaway_id', 'unexpected', 'bidi'), f['cli_codes']):
         L.append('Definition code_cli_%s : N := %s.' % (nm, c))
+    L.append('(* whole-body shapes (comments and string literals blanked, white space removed, SHA-256 prefix): any edit of a')
+    L.append('   function whose control flow the model mirrors by hand moves one of these *)')
+    for name, v in f['shapes']:
+        L.append('Definition shape_%s : N := %d.' % (name, v))
     return '\n'.join(L) + '\n'
